@@ -490,7 +490,9 @@ pub fn items(prop: &str, tier: &str) -> Vec<Item> {
         "C12" | "C13" => {
             let mk = |p: &str| Op::new(if prop == "C12" { "mkdir_all" } else { "remove_all" }).root(ROOT_IN).path(p).mode(0o755);
             let pairs: Vec<Vec<&str>> = if prop == "C12" {
-                let mut v = vec![vec!["a/b/x/y/z", "a/b/x/y/z"], vec!["a/b/x/y", "a/b/x/y/z/w"], vec!["a/n/p", "a/n/q"], vec!["abs/x/y", "a/b/x/y"]];
+                // LONG = a component of 256 bytes: that caller is doomed (ENAMETOOLONG) after it has created its first directories;
+                // the other caller shares that prefix and must not be disturbed by whatever the doomed one does on its way out
+                let mut v = vec![vec!["a/b/x/y/z", "a/b/x/y/z"], vec!["a/b/x/y", "a/b/x/y/z/w"], vec!["a/n/p", "a/n/q"], vec!["abs/x/y", "a/b/x/y"], vec!["e/m/w", "e/m/LONG/z"], vec!["a/b/x/LONG", "a/b/x/y"]];
                 if th { v.push(vec!["e/m/n", "e/m/n", "e/m/n/o"]); v.push(vec!["up/a/b/q/r", "a/b/q/r/s"]); v.push(vec!["a/b/c/d/k", "a/b/lnk/k"]); }
                 v
             } else {
@@ -503,8 +505,11 @@ pub fn items(prop: &str, tier: &str) -> Vec<Item> {
             }
             for b in ["E", "K"] {
                 for pr in &pairs {
-                    let scs: Vec<Scenario> = pr.iter().map(|p| Scenario { name: format!("{}/{}", b, mk(p).brief()), backend: b.into(), op: mk(p), path: p.to_string() }).collect();
-                    let bound = if th { if scs.len() == 2 { 2 } else { 1 } } else { 1 };
+                    let long = "n".repeat(256);
+                    let scs: Vec<Scenario> = pr.iter().map(|p| { let p = p.replace("LONG", &long); Scenario { name: format!("{}/{}", b, mk(&p).brief()), backend: b.into(), op: mk(&p), path: p } }).collect();
+                    // groups with a doomed caller need two preemptions to interleave "create - other caller enters - clean up"
+                    let doomed = scs.iter().any(|s| s.path.split('/').any(|c| c.len() > 255));
+                    let bound = if th { if scs.len() == 2 { if doomed { 3 } else { 2 } } else { 1 } } else if doomed { 2 } else { 1 };
                     let mut it = item(scs[0].clone(), Plan::Sched { bound }, if th { 80_000 } else { 4_000 });
                     it.scen.name = scs.iter().map(|s| s.name.clone()).collect::<Vec<_>>().join(" || ");
                     it.others = scs[1..].to_vec();
@@ -567,6 +572,7 @@ fn judge_concurrent(prop: &str, it: &Item, scen: &Scenario, w: &World, eo: &Exec
             Some(o) => {
                 if let Some(p) = &o.panic { v.push(("panic".into(), format!("caller {} panicked: {}", i, p))); }
                 else if !o.ok && !strict { /* callers of different paths may lose the race for their parent: the statement promises nothing */ }
+                else if !o.ok && s.path.split('/').any(|c| c.len() > 255) { /* this caller cannot succeed on its own (ENAMETOOLONG): nothing is promised to it */ }
                 else if !o.ok { v.push((format!("caller-failed:{}", errname(o.errno.unwrap_or(-1))), format!("caller {} ({}) failed with {} ({}) although concurrent calls must all succeed", i, s.name, errname(o.errno.unwrap_or(-1)), o.msg.clone().unwrap_or_default()))); }
                 final_ids.push(o.fd.as_ref().map(|f| (f.dev, f.ino)));
             }
@@ -576,6 +582,7 @@ fn judge_concurrent(prop: &str, it: &Item, scen: &Scenario, w: &World, eo: &Exec
     let d = diff(&w.before, &after);
     if prop == "C12" {
         for (i, s) in scs.iter().enumerate() {
+            if !eo.final_obs(i).map(|o| o.ok).unwrap_or(false) { continue; }
             match look(&s.path) {
                 Some(st) if st.is_dir() => { if final_ids[i] != Some((st.dev, st.ino)) { v.push(("handle-mismatch".into(), format!("caller {}: returned handle is not the directory {} resolves to", i, s.path))); } }
                 _ => v.push(("missing".into(), format!("caller {}: {} is not a directory after a successful mkdir_all", i, s.path))),
@@ -587,7 +594,8 @@ fn judge_concurrent(prop: &str, it: &Item, scen: &Scenario, w: &World, eo: &Exec
         let finals: Vec<String> = final_ids.iter().filter_map(|id| id.and_then(|id| after.iter().find(|(_, n)| (n.dev, n.ino) == id).map(|(p, _)| p.clone()))).collect();
         for p in &d.added {
             let n = &after[p];
-            let on_chain = finals.iter().any(|f| f == p || f.starts_with(&format!("{}/", p)));
+            let on_req = scs.iter().any(|s| { let want = format!("outer/parent/root/{}", s.path.replacen("abs/", "a/b/", 1)); want == *p || want.starts_with(&format!("{}/", p)) });
+            let on_chain = on_req || finals.iter().any(|f| f == p || f.starts_with(&format!("{}/", p)));
             if n.typ != "dir" || !on_chain { v.push(("extra-entry".into(), format!("mkdir_all created {} ({}) which is not on the chain of a requested path", p, n.typ))); }
             else if n.perm != 0o755 { v.push(("mode".into(), format!("created directory {} has mode {:o}, not 0755", p, n.perm))); }
         }
